@@ -14,9 +14,10 @@ M = sc.ALL_MSGS
 AS_TRANS = 23456
 
 
-def peer_open(remote_as, hold=90, version=4, caps=('mp', 'rr', 'as4'), wrong_as=None):
+def peer_open(remote_as, hold=90, version=4, caps=('mp', 'rr', 'as4'), wrong_as=None, field=None):
     asn = remote_as if wrong_as is None else wrong_as
-    field = asn if asn < 65536 else AS_TRANS
+    if field is None:
+        field = asn if asn < 65536 else AS_TRANS
     cl = []
     if 'mp' in caps:
         cl.append(b'\x02\x06\x01\x04\x00\x01\x00\x01')
@@ -86,6 +87,9 @@ def run(ctx):
         [('wrongas', ('mp', 'as4'), 90)],
         [('badver', ('mp',), 90)],
         [('ok', ('mp', 'as4'), 9), ('hold1', (), 2), ('ok', ('rr',), 65535)],
+        # the true AS is the 4-octet capability value whatever the 2-octet field says
+        [('capas_ok', ('mp', 'as4'), 90)],
+        [('capas_wrong', ('mp', 'as4'), 90)],
     ]
     combos = []
     for la in local_ases:
@@ -146,6 +150,11 @@ def run(ctx):
                     po = peer_open(ra, hold=phold, caps=pcaps)
                 elif kind == 'wrongas':
                     po = peer_open(ra, caps=pcaps, wrong_as=ra + 1)
+                elif kind == 'capas_ok':      # 2-octet field is some other AS, capability 65 carries the configured AS
+                    po = peer_open(ra, hold=phold, caps=pcaps, field=64999)
+                elif kind == 'capas_wrong':   # 2-octet field looks right, capability 65 says otherwise
+                    po = peer_open(ra, hold=phold, caps=pcaps, wrong_as=ra + 1,
+                                   field=(ra if ra < 65536 else AS_TRANS))
                 else:
                     po = peer_open(ra, caps=pcaps, version=3)
                 r2 = d.apply(('data', cid, po))
@@ -155,7 +164,7 @@ def run(ctx):
                 Hn = min(h, phold)
                 if kind == 'badver':
                     exp = ('reject', [2, 1])
-                elif kind == 'wrongas':
+                elif kind in ('wrongas', 'capas_wrong'):
                     exp = ('reject', [2, 2])
                 elif phold in (1, 2):
                     exp = ('reject', [2, 6])
